@@ -84,3 +84,32 @@ Fixpoint seek_ge (t : bytes) (l : list mentry) : list mentry :=
   | [] => []
   | x :: r => if blt (mk x) t then seek_ge t r else l
   end.
+
+(* ---------- an iterator held while the writer goes on (C18, second sentence) ---------- *)
+(* skiplist.Iterator: the snapshot number taken by MemTable.NewIterator and the node it stands
+   on.  It walks the LIVE list: Next follows the level-0 pointer of the current node in the list
+   as it is now and skips the nodes its snapshot does not show.  A node is identified by key and
+   sequence number (the writer never reuses a pair in the programs this is run on). *)
+Record hiter := mkH { h_snap : N; h_cur : option mentry }.
+
+Definition same_node (a b : mentry) : bool := beq (mk a) (mk b) && (mseq a =? mseq b).
+
+Fixpoint after (e : mentry) (l : list mentry) : list mentry :=
+  match l with
+  | [] => []
+  | x :: r => if same_node x e then r else after e r
+  end.
+
+Definition first_visible (snap : N) (l : list mentry) : option mentry :=
+  match filter (visible snap) l with [] => None | x :: _ => Some x end.
+
+Definition h_new (m : memtable) : hiter := mkH (mt_snapshot m) None.
+Definition h_first (m : memtable) (h : hiter) : hiter :=
+  mkH (h_snap h) (first_visible (h_snap h) (mt_entries m)).
+Definition h_seek (t : bytes) (m : memtable) (h : hiter) : hiter :=
+  mkH (h_snap h) (first_visible (h_snap h) (seek_ge t (mt_entries m))).
+Definition h_next (m : memtable) (h : hiter) : hiter :=
+  match h_cur h with
+  | None => h
+  | Some e => mkH (h_snap h) (first_visible (h_snap h) (after e (mt_entries m)))
+  end.
